@@ -2608,6 +2608,13 @@ func (pid *PID) tryPassivation(reason string) bool {
 	pid.stopLocker.Lock()
 	defer pid.stopLocker.Unlock()
 
+	// a concurrent Shutdown may have stopped the actor while this call was
+	// waiting for the lock: stopping it again would run PostStop twice
+	if !pid.isStateSet(runningState) {
+		pid.logger.Debugf("actor=%s is already stopped, nothing to passivate", pid.Name())
+		return false
+	}
+
 	if pid.compareAndSwapState(passivationSkipNextState, true, false) {
 		pid.logger.Debugf("passivation decision aborted for %s due to reinstate observed during critical section", pid.Name())
 		return false
